@@ -115,7 +115,8 @@ static void phys(void) {
         if (any) o(" ");
         any = 1;
         o("dl%d=%zu size%d=%zu cap%d=%zu buf%d=", k, a->data_length, k, a->size, k, a->capacity, k);
-        size_t nb = (default_mode ? a->size : a->capacity) * a->data_length;
+        /* an array on the C library allocator has uninitialised dead slots: print the live bytes only */
+        size_t nb = (a->mem_alloc != sz_malloc ? a->size : a->capacity) * a->data_length;
         for (size_t i = 0; i < nb; i++) o("%02x", a->buffer[i]);
         if (nb == 0) o("-");
         if (a->size > a->capacity) o(" WALK=size-gt-capacity");
@@ -150,7 +151,6 @@ static void do_op(Cmd *c) {
     if (is_op(c, "new_default")) {
         size_t es = kv_u64(c, "esize", 1);
         if (ar[s] || es > MAXDL) { o("st=- badslot"); goto tail; }
-        default_mode = 1;
         enum cc_stat st = cc_array_sized_new(es, &ar[s]);
         if (st != CC_OK) ar[s] = NULL;
         o_stat(st); goto tail;
